@@ -15,7 +15,7 @@ open PlaybackModel.Equalizer
 /-- every input yields its full list of comparisons (the run does not stop at a hang or a death) -/
 theorem C13_runs_to_end (cfg : Cfg) (tasks : List Task) : (runDedT cfg tasks).length = tasks.length := by
   have := congrArg List.length (run_label true cfg tasks initState)
-  simpa [runDedT] using this
+  simpa [runDedT, ownQueues, PlaybackModel.Source.workerOwnsQueues] using this
 
 /-- The parent spends between 1 and `⌊timeout⌋ + 1` one-second polls on a recording (`timeoutMs / 1000` is the floor; so at most `timeout + 1 s`)
 and exactly one when the worker answers. -/
